@@ -420,8 +420,22 @@ func (in *Interp) rank(b []*Term) *Term {
 	if len(b) == 0 {
 		return ts.Const(64, 0)
 	}
+	for _, a := range in.rankApps {
+		if len(a.b) == len(b) {
+			same := true
+			for i := range b {
+				if a.b[i] != b[i] {
+					same = false
+					break
+				}
+			}
+			if same {
+				return a.res
+			}
+		}
+	}
 	r := in.freshVar(64, "rank")
-	in.record("rank", r)
+	in.tape = append(in.tape, TapeEntry{Kind: "rank", W: 64, Term: r, KeyTerms: append([]*Term(nil), b...)})
 	in.assume(ts.Not(ts.Cmp(OEq, r, ts.Const(64, 0))), "rank(nonempty) != rank(empty)")
 	for _, a := range in.rankApps {
 		if len(a.b) == len(b) {
